@@ -102,6 +102,13 @@ theorem fact_misc_sites :
     Facts.C20.strictCondsDummy = ["VerifyVP: d.InStrictMode", "SigningSessionStatus: d.InStrictMode", "StartSigningSession: d.InStrictMode"] ∧
     Facts.C20.irmaProductionExprs = ["n.config.StrictMode"] := by decide
 
+/-- the strict-mode context filter compares with `==`; the notary matches validator names with `strings.EqualFold`,
+    never rewrites the configured list, and registers the dummy means only under `… && !StrictMode` (fact_engine_conditions) -/
+theorem fact_filter_and_validator_comparisons :
+    Facts.C20.contextFilterConds = ["allowedURL == u"] ∧
+    Facts.C20.hasContractValidatorConds = ["strings.EqualFold(cv, curr)"] ∧
+    Facts.C20.notaryValidatorListRewrites = [] := by decide
+
 /-- engines are configured in this relative order (the model's `start` follows it) -/
 theorem fact_engine_order :
     Facts.C20.engineOrder.filter (fun e => ["storageInstance", "cryptoInstance", "vdrInstance", "networkInstance", "authInstance", "httpServerInstance"].contains e) =
@@ -210,6 +217,29 @@ example : start tlds l2s secureCfg = .ok { dummyMeans := false, unlistedRemoteCo
     start tlds l2s sloppyCfg = .ok { dummyMeans := true, unlistedRemoteContexts := true, clientStrict := false } ∧
     start tlds l2s { sloppyCfg with strict := true } = .refuse "storage" "sql-implicit" := by
   refine ⟨?_, ?_, ?_, ?_, ?_⟩ <;> decide
+
+/-! ### remote JSON-LD contexts and test-only means, in detail -/
+
+/-- **remote_contexts_exact.** In strict mode a context URL that is not, byte for byte, an entry of the allow-list never
+    gets past the filter (so it is never fetched) — for every allow-list and every URL; with strict mode off every URL passes. -/
+theorem remote_contexts_exact (allow : List Bytes) (u : Bytes) :
+    (u ∉ allow → contextPasses true allow u = false) ∧ (u ∈ allow → contextPasses true allow u = true) ∧
+    contextPasses false allow u = true := by
+  refine ⟨?_, ?_, ?_⟩ <;> simp [contextPasses]
+
+/-- why the comparison is pinned: under a prefix rule `https://schema.org.attacker.example/ctx` would pass a list that
+    contains `https://schema.org`, under equality it does not -/
+theorem remote_context_prefix_witness :
+    let allow : List Bytes := [[104, 116, 116, 112, 115, 58, 47, 47, 115, 99, 104, 101, 109, 97, 46, 111, 114, 103]]            -- https://schema.org
+    let u : Bytes := [104, 116, 116, 112, 115, 58, 47, 47, 115, 99, 104, 101, 109, 97, 46, 111, 114, 103, 46, 97, 116, 116, 97, 99, 107, 101, 114,
+                      46, 101, 120, 97, 109, 112, 108, 101, 47, 99, 116, 120]                                                    -- https://schema.org.attacker.example/ctx
+    contextPassesPrefix allow u = true ∧ contextPasses true allow u = false := by decide
+
+/-- the dummy means is recognised in every spelling (`Dummy`, `DUMMY`, …), and a strict node offers it in none of them -/
+theorem dummy_any_spelling (c : Config) (hs : c.strict = true) (r : Running) (h : start tlds l2s c = .ok r) :
+    r.dummyMeans = false ∧
+    hasValidator [100, 117, 109, 109, 121] [[68, 85, 77, 77, 89]] = true ∧ hasValidator [100, 117, 109, 109, 121] [[68, 117, 109, 109, 121]] = true := by
+  refine ⟨(strict_running c hs r h).1, by decide, by decide⟩
 
 /-! ### moved keys and command-line secrets: either mode -/
 
